@@ -115,6 +115,7 @@ type Session struct {
 	stateMap     protocol.StateMap
 	writeMu      sync.Mutex
 	peerWG       sync.WaitGroup
+	afterErrMark bool
 }
 
 var errHandler = errors.New("harness handler error")
